@@ -6,6 +6,8 @@ def histGrowFactor : Nat := 2
 def heunCopiesRhs : Bool := true
 /-- BaseBackend.run builds `times` as np.arange(n)*step (true) or as linspace(0,T,n,endpoint=False)/unknown (false) -/
 def timeAxisIsArange : Bool := true
+def replaceAllowedFollowOps : String := "-+=*/^<>=!.%@[]():, '"
+def varInExprFollowOps : String := "+-=*/^<>=!.%@[]():, "
 
 /-- entries the extractor could not find in the source (a theorem that needs one fails to build) -/
 def missing : List String := []
